@@ -9,6 +9,7 @@ import (
 	"net/http/httptest"
 	"net/url"
 	"runtime"
+	"sort"
 	"sync"
 	"sync/atomic"
 	"time"
@@ -461,6 +462,69 @@ func init() {
 			rawU.Close()
 		}
 
+		// 6b. the same race with the window forced open: the context ends at the very moment the reply's headers
+		// are handed over (inside RoundTrip, just before it returns), and the body read fails with the context's
+		// error as the standard transport's does: the reading goroutine and ctx.Done() are ready together
+		for _, how := range []string{"cancel", "deadline"} {
+			var results []string
+			ok := true
+			tailOutcomes := map[string]int{}
+			for k := 0; k < 40; k++ {
+				var ctx context.Context
+				var cancel context.CancelFunc
+				want := codes.Canceled
+				if how == "cancel" {
+					ctx, cancel = context.WithCancel(context.Background())
+				} else {
+					ctx, cancel = context.WithDeadline(context.Background(), time.Now().Add(-time.Second))
+					want = codes.DeadlineExceeded
+				}
+				base, _ := url.Parse("http://scripted.invalid/")
+				rc := &httpgrpc.Channel{BaseURL: base, Transport: endsAtHeadersRT{ctx: ctx, cancel: cancel, honourDone: how == "deadline"}}
+				// (the caller asks for the reply's headers, of which there are many: collecting them takes the
+				// calling goroutine longer than the failed read takes the reading one)
+				var hmd metadata.MD
+				e := rc.Invoke(ctx, "/verif.Svc/U", &hx.Msg{}, &hx.Msg{}, grpc.Header(&hmd))
+				cancel()
+				if !isCtxStatus(e, want) {
+					ok = false
+					results = append(results, fmt.Sprintf("round %d: %v", k, e))
+				}
+				// the outcome in the vocabulary of model/HttpUnary.v
+				oc := "HttpUnary.ONet"
+				switch {
+				case e == nil:
+					oc = "HttpUnary.OSuccess"
+				case e == context.Canceled:
+					oc = "(HttpUnary.ORawCtx 1)"
+				case e == context.DeadlineExceeded:
+					oc = "(HttpUnary.ORawCtx 2)"
+				case isCtxStatus(e, codes.Canceled):
+					oc = "(HttpUnary.OStatus 1)"
+				case isCtxStatus(e, codes.DeadlineExceeded):
+					oc = "(HttpUnary.OStatus 4)"
+				}
+				tailOutcomes[oc]++
+			}
+			// every outcome observed must be one the LTS of the call's tail can produce (proofs/HttpUnary.v)
+			var ocs []string
+			for oc := range tailOutcomes {
+				ocs = append(ocs, oc)
+			}
+			sort.Strings(ocs)
+			for _, oc := range ocs {
+				id++
+				o.Case("http_unary_tail_"+how, fmt.Sprintf("Checked %s %d (HttpUnary.possible true %s)", hx.Str("http_unary_tail"), id, oc),
+					map[string]interface{}{"transport": "httpgrpc (scripted RoundTripper)", "kind": "unary", "context_ends": "as the reply headers are handed over, by " + how, "outcome": oc, "times": tailOutcomes[oc]})
+			}
+			id++
+			d := map[string]interface{}{"transport": "httpgrpc (scripted RoundTripper)", "kind": "unary", "context_ends": "as the reply headers are handed over, by " + how, "rounds": 40, "not_the_status": results}
+			if !ok {
+				o.Violate("a unary HTTP call whose context ended as its reply headers arrived returned the bare context error", d, results, how)
+			}
+			checked(o, "http_unary_context_ends_at_headers_"+how, id, ok, d)
+		}
+
 		// 7. contexts that end with a CAUSE (WithCancelCause, WithTimeoutCause, an ancestor cancelled with a
 		// cause): ctx.Err() is still Canceled / DeadlineExceeded, and that is what the caller must get
 		causeSvc := &hx.Svc{
@@ -537,4 +601,35 @@ func init() {
 		o.Check, o.Oracle, o.Finding = "check_c04", "oracle_c04", "finding_c04"
 		o.Shard = 60
 	}
+}
+
+// endsAtHeadersRT answers every request with 200 and a body whose reads fail with the context's error; the
+// context is ended just before RoundTrip returns (for a deadline it has already passed: a scripted transport
+// may still deliver headers that were on their way)
+type endsAtHeadersRT struct {
+	ctx        context.Context
+	cancel     context.CancelFunc
+	honourDone bool
+}
+
+type ctxErrBody struct{ ctx context.Context }
+
+func (b ctxErrBody) Read(p []byte) (int, error) { <-b.ctx.Done(); return 0, b.ctx.Err() }
+func (b ctxErrBody) Close() error               { return nil }
+
+func (t endsAtHeadersRT) RoundTrip(rq *http.Request) (*http.Response, error) {
+	if rq.Body != nil {
+		io.Copy(io.Discard, rq.Body)
+		rq.Body.Close()
+	}
+	if !t.honourDone {
+		t.cancel()
+	}
+	h := http.Header{}
+	h.Set("Content-Type", httpgrpc.UnaryRpcContentType_V1)
+	for i := 0; i < 3000; i++ {
+		h.Add(fmt.Sprintf("X-Note-%d", i%300), fmt.Sprint("value ", i))
+	}
+	return &http.Response{StatusCode: 200, Status: "200 OK", Proto: "HTTP/1.1", ProtoMajor: 1, ProtoMinor: 1, Header: h,
+		ContentLength: 64, Body: ctxErrBody{t.ctx}, Request: rq}, nil
 }
